@@ -1,12 +1,18 @@
 (* C08  Reference cycles are errors; acyclic references never are.  Statements only; proofs in
-   Proofs/StateFacts.v, StateIndep.v, Mono.v about the ResolveState of Model/Interp.v.
-   PARTIAL: "every cyclic chain is reported" and "rendering always comes back" in full
-   generality need a termination measure for the re-interpolation of merged layer lists, which
-   is not proved; they are covered by the cyclic / acyclic / chain streams of the check on every
-   run and by the boundary evaluations below.  Proved: when exactly the two errors are raised,
-   that the state only ever grows along one chain (and is cloned, by construction of the loops,
-   for siblings), that successful results never depend on the state, and fuel irrelevance. *)
-From RV Require Import Model.Interp Proofs.StateFacts Proofs.StateIndep Proofs.Mono.
+   Proofs/Termination.v, StateFacts.v, StateIndep.v, Mono.v about the ResolveState of
+   Model/Interp.v.
+   "Rendering always comes back with a result or an error" is proved in full: for every
+   well-formed parameter mapping (cyclic reference graphs included) there is a fuel from which
+   on render_with_self returns one and the same value or error (C08_rendering_always_comes_back;
+   fuel is the model's only bound on the call depth, so this is termination).  Also proved:
+   when exactly the depth and loop errors are raised, that the state only ever grows along one
+   chain (and is cloned, by construction of the loops, for siblings), that successful results
+   never depend on the state, fuel irrelevance.
+   PARTIAL: "every cyclic chain is reported as a reference-loop error" -- the theorem says a
+   cyclic graph ends in a value or an error, and the loop/depth theorems say when those two
+   errors are raised; that no cyclic chain can end in a value is covered by the cyclic streams
+   of the check on every run and by the boundary evaluations below, not by a theorem. *)
+From RV Require Import Model.Interp Proofs.WfFacts Proofs.StateFacts Proofs.StateIndep Proofs.Mono Proofs.NoPanic Proofs.Termination.
 
 (** The depth error is raised exactly at nesting depth 64 (documented limit), whatever the
     reference refers to ... *)
@@ -48,6 +54,29 @@ Theorem C08_fuel_irrelevant :
   forall root f f' v st r, f <= f' -> interp f root v st = r -> r <> OutOfFuel -> interp f' root v st = r.
 Proof. exact interp_fuel_mono. Qed.
 Eval cbv in "ASSUMPTIONS-OF C08_fuel_irrelevant"%string. Print Assumptions C08_fuel_irrelevant.
+
+(** Rendering always comes back: for every well-formed mapping of parameters there is a fuel
+    from which on the outcome is one and the same, and it is a value or an error -- never a
+    panic, never a call depth beyond any bound.  No acyclicity hypothesis: cyclic reference
+    graphs are included. *)
+Theorem C08_rendering_always_comes_back :
+  forall m, wf (VMap m) ->
+  exists F r, (forall F', F <= F' -> render_with_self F' (VMap m) = r) /\
+              ((exists v, r = Ok v) \/ (exists e, r = Err e)).
+Proof.
+  intros m Hw. destruct (render_with_self_total m Hw) as (F & r & Hn & H). exists F, r. split; [exact H|].
+  destruct r as [v | e | p |]; [left; eexists; reflexivity | right; eexists; reflexivity | | congruence].
+  exfalso. exact (render_with_self_no_panic F (VMap m) p Hw (H F (Nat.le_refl _))).
+Qed.
+Eval cbv in "ASSUMPTIONS-OF C08_rendering_always_comes_back"%string. Print Assumptions C08_rendering_always_comes_back.
+
+(** ... and so does the interpolation of any well-formed value against any well-formed
+    parameters, in any resolution state. *)
+Theorem C08_interpolation_terminates :
+  forall root v st, wf (VMap root) -> wf v ->
+  exists F r, r <> OutOfFuel /\ forall F', F <= F' -> interp F' root v st = r.
+Proof. intros root v st Hr Hv. exact (interp_total root Hr v st Hv). Qed.
+Eval cbv in "ASSUMPTIONS-OF C08_interpolation_terminates"%string. Print Assumptions C08_interpolation_terminates.
 
 (** Boundary evaluations on the model (kernel computations, instances -- not the general claim):
     a chain of 63 whole-value references renders, a chain of 65 hits the depth limit; direct,
